@@ -69,6 +69,7 @@ func (j claimJSON) toClaim() Claim {
 type ByzCase struct {
 	Seed      uint64      `json:"seed"`
 	History   *Scenario   `json:"history,omitempty"`
+	Big       uint64      `json:"big,omitempty"` // the state is embedded at this slot offset of a huge accumulator (big.go): roots-only verifiers only
 	Synthetic *synthStump `json:"synthetic_stump,omitempty"`
 	Claim     *claimJSON  `json:"claim,omitempty"`
 	Verifier  string      `json:"verifier,omitempty"`
@@ -105,6 +106,7 @@ type byzState struct {
 	mpPart  *u.MapPollard // holds only roots (from-roots) -> VerifyPartialProof needs the complete proof
 	mpPart2 *u.MapPollard // partial node with some remembered leaves
 	synth   bool
+	big     *Node // non-nil: claims are translated to the big coordinates before they reach a verifier
 }
 
 var byzVerifiers = []string{"Verify", "Stump.Update", "Pollard.Verify", "MapPollard.Verify", "MapPollard(partial).Verify", "VerifyPartialProof",
@@ -155,6 +157,16 @@ func (e *byzEngine) buildState(bc *ByzCase) (*byzState, *Stats) {
 		case n.cfg.Kind == "mappartial":
 			bs.mpPart2 = n.mp.m
 		}
+	}
+	if bc.Big != 0 {
+		// embedded at a big offset: only verifiers that need no leaves
+		bs.big = &Node{cfg: NodeCfg{Kind: "stump", Big: bc.Big}}
+		bs.stump = bs.big.bigStump(bs.st)
+		bs.pol, bs.mpFull, bs.mpPart2 = nil, nil, nil
+		m := u.NewMapPollardFromRoots(append([]H(nil), bs.stump.Roots...), bs.stump.NumLeaves, false)
+		bs.mpPart = &m
+		w.stats.Reach["byz_state_at_big_offset"]++
+		return bs, w.stats
 	}
 	if bs.st.N > 0 {
 		m := u.NewMapPollardFromRoots(append([]H(nil), L.Roots...), bs.st.N, false)
@@ -208,6 +220,9 @@ func (e *byzEngine) genCase(seed uint64) *ByzCase {
 	}
 	sc.Steps = steps
 	bc.History = sc
+	if r.Pct(25) {
+		bc.Big = bigOffset(r)
+	}
 	return bc
 }
 
@@ -736,6 +751,11 @@ func (e *byzEngine) evaluate(bs *byzState, c Claim, prog *byzProgress, stats *St
 		// fresh copies for every call: the verifier must not be able to disturb the next one
 		hashes := append([]H(nil), c.Hashes...)
 		proof := u.Proof{Targets: append([]uint64(nil), c.Targets...), Proof: append([]H(nil), c.Proof...)}
+		if bs.big != nil {
+			for i, t := range proof.Targets {
+				proof.Targets[i] = bs.big.up(t, bs.st.N)
+			}
+		}
 		var call, recheck func() error
 		var rootsOf []func() []H
 		after := false
